@@ -31,6 +31,7 @@ type Cfg struct {
 	StoreID  bool   `json:"id,omitempty"`      // StoreIdentityCIDs
 	MaxCid   uint64 `json:"maxcid,omitempty"`  // MaxIndexCidSize
 	ZeroEOF  bool   `json:"zeroeof,omitempty"` // ZeroLengthSectionAsEOF
+	MaxSec   uint64 `json:"maxsec,omitempty"`  // MaxAllowedSectionSize (a READ limit: writers and resumption are not bound by it)
 }
 
 func (c Cfg) String() string {
@@ -107,6 +108,9 @@ func (c Cfg) Opts() []carv2.Option {
 	}
 	if c.ZeroEOF {
 		o = append(o, carv2.ZeroLengthSectionAsEOF(true))
+	}
+	if c.MaxSec > 0 {
+		o = append(o, carv2.MaxAllowedSectionSize(c.MaxSec))
 	}
 	return o
 }
@@ -299,6 +303,25 @@ func (f *FailSrc) ReadAt(p []byte, off int64) (int, error) {
 	}
 	return f.R.ReadAt(p, off)
 }
+
+// StutterSeeker is a legal io.ReadSeeker without ReadByte whose every other Read returns (0, nil)
+// and that delivers at most 7 bytes at a time (a polling or chunked source).
+type StutterSeeker struct {
+	R *bytes.Reader
+	n int
+}
+
+func (s *StutterSeeker) Read(p []byte) (int, error) {
+	s.n++
+	if len(p) == 0 || s.n%2 == 0 {
+		return 0, nil
+	}
+	if len(p) > 7 {
+		p = p[:7]
+	}
+	return s.R.Read(p)
+}
+func (s *StutterSeeker) Seek(off int64, whence int) (int64, error) { return s.R.Seek(off, whence) }
 
 // CountingReader counts bytes delivered and calls.
 type CountingReader struct {
